@@ -12,7 +12,7 @@ import Toodee.Impl.Recv
 namespace Toodee.Driver
 open Toodee
 
-inductive Elem | u32 | cell | zst | unit
+inductive Elem | u32 | cell | zst | unit | nan
 deriving DecidableEq, Repr
 
 /-- zero-sized kinds: positions are not observable, every value is 0 (`zst` = a ledgered unit struct with `Drop`; `unit` = `()`,
@@ -20,6 +20,12 @@ deriving DecidableEq, Repr
 def Elem.isZst : Elem → Bool
   | .zst | .unit => true
   | _ => false
+
+/-- the one value of the `nan` kind (a `u32` wrapper whose `==` is not reflexive for it, like a float's NaN) -/
+def nanVal : Nat := 4242424242
+
+/-- `T::eq` of the element kind -/
+def Elem.eqα (e : Elem) (x y : Nat) : Bool := if e = .nan then (x == y && x != nanVal) else x == y
 
 /-- kinds with a drop ledger -/
 def Elem.ledgered : Elem → Bool
